@@ -119,7 +119,7 @@ DSMember_ == cs.out \in DatasetTokens(cs.ck, cs.ds, cs.lim, cs.jn)
 DSRejectsWrong_ ==
   LET per == [i \in 1..Len(cs.ds) |-> CanonEmit(cs.ck, cs.ds[i])]  f == cs.lists IN
   /\ Len(f) >= 1 => ~DatasetOK(cs.ck, Len(cs.ds), cs.lim, FALSE, Tail(f), <<>>, per)
-  /\ (Len(f) = 2 /\ cs.ds[1] # cs.ds[2]) => ~DatasetOK(cs.ck, Len(cs.ds), cs.lim, FALSE, <<f[2], f[1]>>, <<>>, per)
+  /\ (Len(f) = 2 /\ ~Equivalent(cs.ck, f[1], f[2])) => ~DatasetOK(cs.ck, Len(cs.ds), cs.lim, FALSE, <<f[2], f[1]>>, <<>>, per)
 
 DSAccepted == cs.t = "ds" => DSAccepted_
 DSMember == cs.t = "ds" => DSMember_
@@ -131,4 +131,6 @@ ShapesL2 == {<<2,3>>, <<3,2>>}
 ShapesDS == {<<1,2>>, <<2,1>>}
 BothCoordKinds == {"UT", "CTT"}
 PlainAndSolved == {KPlain, KSolved}
+PlainOnly == {KPlain}
+UTOnly == {"UT"}
 =======================================================================
